@@ -185,6 +185,7 @@ HasOr(e) ==
       [] OTHER -> e.op = "|" \/ HasOr(e.l[1]) \/ HasOr(e.r[1])
 
 NV == <<3, 10>>
+NV2 == <<4, 7>>     \* a second binding of the same names: another file compiled in the same run
 VARIABLE ast
 EInit == ast \in {e \in AST(Depth) : WellFormed(e)}
 ESpec == EInit /\ [][UNCHANGED ast]_ast
